@@ -386,6 +386,17 @@ func classifyCond(c *Ctx, fn *ssa.Function, lp loopInfo, cond ssa.Value, truth b
 			}
 		}
 	}
+	// the same poll moved into a helper: `if c.isDone() { return }`
+	if call, ok := v.(*ssa.Call); ok && truth && lp.Blocks[call.Block()] {
+		if f, isCtx, ok := pollHelper(call.Call.StaticCallee()); ok {
+			if isCtx {
+				return "select on ctx.Done()"
+			}
+			if f != nil && f.Name() == "done" {
+				return "receive on the owner's done channel"
+			}
+		}
+	}
 	// nil test on an error
 	if x, nonNilOnTrue, ok := nilCheck(v); ok && nonNilOnTrue == truth {
 		// ctx.Err()
